@@ -64,6 +64,7 @@ type SpecFn struct {
 }
 
 type Specs struct {
+	boolGhosts map[string]bool // "<function>|<ghost>" (from the baseline)
 	loopComplete map[string]map[int][]string
 	returnsSorted map[string][]string
 	contracts map[string]*Contract
@@ -145,7 +146,7 @@ func loadSpecs(w *World, trustedDir string) *Specs {
 	}
 	var files []string
 	filepath.Walk(w.repo, func(path string, info os.FileInfo, err error) error {
-		if err == nil && !info.IsDir() && info.Name() == "zz_verif_contracts.go" {
+		if err == nil && !info.IsDir() && strings.HasPrefix(info.Name(), "zz_verif_contracts") && strings.HasSuffix(info.Name(), ".go") && !strings.HasSuffix(info.Name(), "_test.go") {
 			files = append(files, path)
 		}
 		return nil
